@@ -11,6 +11,7 @@ import pyarrow as pa
 from numba.typed import List as NumbaList
 
 from .. import nanops
+from .. import _verif
 from ..util import (
     ArrayType1D,
     NumbaReductionOps,
@@ -815,6 +816,13 @@ def _group_func_wrap(
     )
     counting = "count" in reduce_func_name
 
+    if _verif.ACTIVE:
+        _verif.emit(
+            "Dispatch",
+            func=reduce_func_name,
+            n_threads=int(n_threads),
+            chunked=bool(values_are_chunked),
+        )
     if n_threads == 1 and not values_are_chunked:
         result, count = _apply_group_method_single_chunk(**kwargs)
         if counting:
